@@ -133,7 +133,13 @@ pub async fn accept_loop<F>(
             Some(AcceptResult::Ok(stream, addr)) => {
                 #[cfg(feature = "verif_hooks")]
                 crate::verif::emit("AccAccepted", u64::from(addr.port()), 0);
-                conn_handler.clone()(permit.new_sub(), token, stream, addr);
+                let conn_permit = permit.new_sub();
+                // `Permit::new_sub` misses a revocation that happens while it runs.
+                // The connection's permit would then never be revoked.
+                if permit.is_revoked() {
+                    return;
+                }
+                conn_handler.clone()(conn_permit, token, stream, addr);
             }
             Some(AcceptResult::TooManyOpenFiles) => {
                 #[cfg(feature = "verif_hooks")]
